@@ -12,9 +12,22 @@ numpy float64 and numpy int64 scalars (the type is part of the case), including 
     evaluations exist) run on the probe's record: no epoch before the last one may satisfy the rule, the
     run ends by a stop iff the last epoch satisfies it, last_epoch is that epoch, and `fit` never raises.
     Zero cases (M_{t-p} = 0 for `relative`, variance 0 for `variance`) are decided under IEEE semantics in
-    float64: the deviation is inf or nan, which is never below the tolerance.  A decision whose deviation is
-    within 1e-9*max(1,|tol|) of the tolerance without being equal to it is not demanded either way (guard band:
-    a mathematically equal formula may round differently); such sessions are counted, not compared.
+    float64: the deviation is inf or nan, which is never below the tolerance.
+    Every decision is taken twice: by the documented formula evaluated in float64 (IEEE) and by the documented
+    inequality evaluated in EXACT rational arithmetic (fractions.Fraction) on the doubles of the history.  A decision
+    is demanded only where the two agree and the exact deviation is not within a factor 1 +- 1e-9 of the tolerance
+    (guard band: a mathematically equal formula may round differently; for `relative` with two different values the
+    band is also 1e-9*max(1,tol) absolute, because 1 - M_t/M_{t-p} is an equally documented spelling).  Equal values
+    (deviation exactly 0) and exact ties are always demanded.  Where the float evaluation of the documented formula
+    itself overflows / rounds a denormal so that it differs from the exact inequality (|M_{t-p}-M_t| = inf against
+    tolerance inf, ...) nothing is demanded: such decisions are counted ("exact_vs_ieee"), the run then follows the
+    implementation's choice.
+  * regimes: besides ordinary magnitudes, a fixed list (run first) and a random stream of EXTREME sessions: values,
+    variances and tolerances over the whole finite double range (denormals, 1e-300 .. 1e300, max double, exact zeros,
+    equal values, opposite signs, values one ulp / 1e-12..1e-4 apart, two magnitudes in one history), tolerances
+    0, 5e-324, float_info.min, 1e-300 .. 1e300, max double, inf and tolerances matched to a deviation of the history
+    (factors 0.5, 1 -+ 1e-6, 2, 1e+-3), so that squared / cross-multiplied / re-associated spellings of the three
+    tests (which overflow, underflow or meet a zero where the documented one does not) decide differently.
   * correspondence: outcome, epochs run, last_epoch, evaluator record vs the extracted Coq model
     (Callbacks.es_fit / es_construct) executed at IEEE doubles.
   * constructor: the statement only says that the variance criterion is REFUSED for plain metrics and that the
@@ -24,7 +37,8 @@ numpy float64 and numpy int64 scalars (the type is part of the case), including 
     raises for a MetricEvaluator, and its runs equal those of EarlyStopping(criterion="variance").  Exception
     classes, non-evaluators, unknown names, case/white-space tolerance: histogram only ("info:...").
 """
-import json, math, time
+import json, math, sys, time
+from fractions import Fraction
 import numpy as np
 from checks import c17 as base
 
@@ -34,6 +48,10 @@ RULE = ("sessions = (evaluator kind metric/observable, callback order evaluator-
         "oscillating / constant / containing zeros / plateaus / random, value type float / int / numpy.float64 / numpy.int64 (exact zeros "
         "in every type), variances positive or zero, one or two fit runs of up to 24 epochs without clearing); "
         "plus the constructor table over 14 criterion spellings x 3 evaluator kinds and the deprecated class; "
+        "plus EXTREME sessions (28 fixed, run first; 1 in 4 of the random stream): float / numpy.float64 values = shape settle / halving / flip / "
+        "zeros / two-scale / ulp-steps / near-equal (1e-12..1e-4) times a magnitude in {5e-324 .. 4e307}, variances in {0, 5e-324, 1e-310 .. max "
+        "double} or the squared magnitude, tolerance in {0, 5e-324, float_info.min, 1e-300 .. 1e300, max double, inf} or matched to a deviation of "
+        "the history; every decision also taken by an exact rational oracle of the documented inequality; "
         "a session is non-trivial when the rule was evaluated at least once with enough history (stop or not)")
 ASSUMPTIONS = []
 
@@ -58,14 +76,81 @@ def ref_deviation(crit, prev, cur, pvar):
         return abs(prev - cur) / np.sqrt(pvar)
 
 
-def ref_should_stop(hist, p, tol, crit):
-    """documented rule on a history of (value, variance) evaluations; returns (decision, borderline)"""
-    if len(hist) < p + 1:
+GUARD = Fraction(1, 10 ** 9)
+
+
+def exact_rule(crit, prev, cur, pvar, tol):
+    """the DOCUMENTED inequality `deviation < tolerance` decided in exact rational arithmetic on the doubles given
+    (no overflow, no underflow, no rounding): returns (below, band) or None when an operand is not finite.
+    A zero denominator (earlier value 0 for `relative`, variance 0 for `variance`) makes the documented quantity inf / nan:
+    never below.  band: the deviation is within a factor 1 +- 1e-9 of the tolerance without being equal to it (for `relative`
+    with two different values also: within 1e-9*max(1,tol) absolutely)."""
+    if not (math.isfinite(prev) and math.isfinite(cur) and math.isfinite(pvar)) or math.isnan(tol):
+        return None
+    c = abs(Fraction(prev) - Fraction(cur))
+    if crit == "relative":
+        if prev == 0:
+            return False, False
+        lhs, unit = c, abs(Fraction(prev))                 # deviation = lhs / unit
+    elif crit == "absolute":
+        lhs, unit = c, Fraction(1)
+    else:
+        if not pvar > 0:
+            return False, False
+        lhs, unit = c * c, Fraction(pvar)                  # deviation^2 = lhs / unit
+    if tol == math.inf:
+        return True, False                                 # the exact deviation is finite
+    if tol < 0:
         return False, False
+    T = Fraction(tol)
+    if crit == "variance":
+        rhs = T * T * unit                                 # deviation < tol  <=>  lhs < rhs   (both sides >= 0)
+        keep = (1 - GUARD) ** 2
+    else:
+        rhs = T * unit
+        keep = 1 - GUARD
+    band = lhs != rhs and min(lhs, rhs) >= keep * max(lhs, rhs)
+    if crit == "relative" and lhs != 0 and lhs != rhs and abs(lhs - rhs) <= GUARD * max(1, T) * unit:
+        band = True
+    return lhs < rhs, band
+
+
+def ref_should_stop(hist, p, tol, crit):
+    """documented rule on a history of (value, variance) evaluations; returns (decision, soft):
+    soft is None (the decision is demanded), "guard_band" or "exact_vs_ieee" (not demanded either way)"""
+    if len(hist) < p + 1:
+        return False, None
     cur, prev = hist[len(hist) - 1], hist[len(hist) - 1 - p]
     d = float(ref_deviation(crit, prev[0], cur[0], prev[1]))
-    border = (math.isfinite(d) and math.isfinite(tol) and d != tol and abs(d - tol) <= 1e-9 * max(1.0, abs(tol)))
-    return bool(d < tol), border
+    ieee = bool(d < tol)
+    ex = exact_rule(crit, prev[0], cur[0], prev[1], tol)
+    if ex is None:          # non-finite monitored values (not generated): IEEE semantics only
+        return ieee, None
+    if ex[1]:
+        return ieee, "guard_band"
+    if ex[0] != ieee:
+        return ieee, "exact_vs_ieee"
+    return ieee, None
+
+
+class ScriptedSystem:
+    """stands in for qucumber.observables.System inside a real ObservableEvaluator: the statistics of every (stub) observable
+    exactly as scripted, without the chunk-merging arithmetic of System.statistics"""
+    def __init__(self, real, n):
+        self.observables = real.observables
+        self.n = n
+
+    def statistics(self, nn_state, **kwargs):
+        return {name: obs.statistics_from_samples(nn_state, [None] * self.n) for name, obs in self.observables.items()}
+
+
+def tol_bucket(tol):
+    if tol == 0 or tol == math.inf:
+        return repr(tol)
+    for name, hi in (("denormal", sys.float_info.min), ("<1e-160", 1e-160), ("<1e-20", 1e-20), ("<1e-6", 1e-6), ("ordinary", 1e6), ("<1e20", 1e20),
+                     ("<1e150", 1e150), ("<=max", math.inf)):
+        if tol < hi:
+            return name
 
 
 def spell(rng, crit):
@@ -104,6 +189,15 @@ def session(ctx, spec):
                            conv=conv, vconv=vconv)
         ev = ObservableEvaluator(pe, [obs], verbose=bool(spec.get("verbose", False)), **kw)
         wb = C["obs_wouldbe"]([obs], kw)
+        if spec.get("regime") == "extreme":
+            # System.statistics merges chunk statistics with (mean difference)**2 and mean*n/n, variance*(n-1)/(n-1): that overflows
+            # (OverflowError for Python floats, nan for numpy) or rounds for magnitudes the stopper itself handles.  The property is about
+            # the stopper's decision on the evaluator's record, so here the real evaluator records the scripted statistics unmerged.
+            if not hasattr(ev, "system"):
+                ctx.count("info:extreme observable session skipped (evaluator has no .system to script)")
+                return None
+            ev.system = ScriptedSystem(ev.system, kw["num_samples"])
+            wb = ev.system.statistics
         probe = C["Probe"](lambda st: (lambda d: (d["q"]["mean"], d["q"]["variance"]))(wb(st)))
         read = lambda: [float(x) for x in ev["q"].means]
     pgiven = PTYPES[spec.get("ptype", "int")](p)
@@ -143,6 +237,7 @@ def session(ctx, spec):
     want_last = None
     mfits, impl = [], []
     evaluated = borderline = False
+    extreme = spec.get("regime") == "extreme"
     import io, contextlib
     for fi, (start, end) in enumerate(spec["fits"]):
         n0 = len(probe.events)
@@ -171,17 +266,19 @@ def session(ctx, spec):
             if ev_first and e["epoch"] % pe == 0:
                 hist.append(v)
             checked = e["epoch"] % ps == 0
-            rule, border = ref_should_stop(hist, p, tol, crit) if checked else (False, False)
+            rule, border = ref_should_stop(hist, p, tol, crit) if checked else (False, None)
             if checked and len(hist) >= p + 1:
                 evaluated = True
+                if extreme:
+                    ctx.count("extreme_decision:%s:%s" % (crit, border or ("below-tolerance" if rule else "not-below")))
             if not ev_first and e["epoch"] % pe == 0:
                 hist.append(v)
             last = (i == len(evs) - 1)
             det = {"epoch": e["epoch"], "history": [list(h) for h in hist[-(p + 2):]], "patience": p, "tol": tol, "criterion": crit,
                    "stopped_at": ran[-1] if stopped else None, "ran": ran}
-            if border:          # guard band: either decision is accepted here; the rest of the run follows the implementation's choice
+            if border:          # guard band / exact-vs-IEEE: either decision is accepted here; the rest of the run follows the implementation's choice
                 borderline = True
-                ctx.count("guard_band_decisions")
+                ctx.count("%s_decisions" % border)
                 if last and stopped:
                     want_last = e["epoch"]
             elif not last:
@@ -205,12 +302,15 @@ def session(ctx, spec):
     mod = ctx.get_model().call("c18_es_session", 0 if spec["ev"] == "metric" else 1, ev_first, pe, ps, tol, p,
                                base.codes("variance" if spec.get("deprecated") else spec["crit"]), mfits)
     if borderline:
-        base.info(ctx, "session with a guard-band decision vs model", base.canon([0, CRITS.index(crit), impl]) == base.canon(mod))
+        base.info(ctx, "session with a guard-band / exact-vs-IEEE decision vs model", base.canon([0, CRITS.index(crit), impl]) == base.canon(mod))
     else:
         ctx.agree_exact("EarlyStopping run vs model", base.canon([0, CRITS.index(crit), impl]), base.canon(mod), case)
     ctx.case({k: spec.get(k) for k in ("ev", "order", "pe", "ps", "patience", "ptype", "vtype", "tol", "crit", "fits", "tseed", "pattern",
-                                       "esform", "vname", "deprecated", "verbose")},
+                                       "esform", "vname", "deprecated", "verbose", "regime", "mag", "vmag")},
              nontrivial=evaluated)
+    if extreme:
+        ctx.count("regime:extreme")
+        ctx.count("extreme_tolerance:" + tol_bucket(tol))
     ctx.count("vtype:" + spec.get("vtype", "np.float64")); ctx.count("ptype:" + spec.get("ptype", "int"))
     zero_prev = any(h[0] == 0.0 for h in hist) if crit == "relative" else (any(h[1] == 0.0 for h in hist) if crit == "variance" else False)
     if zero_prev:
@@ -295,6 +395,165 @@ def pattern(rng, name, n=30):
 
 PATTERNS = ["converging", "oscillating", "constant", "zeros", "plateaus", "random"]
 
+# ---------------------------------------------------------------------------------------------------------------------
+# EXTREME regime: the whole finite double range.  Algebraically equal spellings of the three tests (squared:
+# d*d < tol*tol*var; cross-multiplied: d < tol*sigma, d < tol*|M|; re-associated: sqrt(d*d/var), d/tol < sigma) differ from
+# the documented ones exactly where an intermediate overflows / underflows / meets a zero, i.e. for tiny or huge
+# tolerances, values, variances.  The oracle is exact (exact_rule), so no magnitude is cut off.
+FMAX, FMIN, DEN = sys.float_info.max, sys.float_info.min, 5e-324
+MAGS = [DEN, 1e-320, FMIN, 1e-300, 1e-250, 1e-200, 1e-170, 1e-163, 1e-162, 1e-155, 1e-154, 1e-100, 1e-30, 1.0, 1e30, 1e100,
+        1e153, 1e154, 1e155, 1e162, 1e170, 1e200, 1e250, 1e300, 4e307]
+XTOLS = [0.0, DEN, 1e-320, FMIN, 1e-300, 1e-200, 1e-170, 1e-163, 1e-162, 1e-161, 1e-155, 1e-154, 1e-100, 1e-17, 1e-9, 1e-3, 0.3, 2.0,
+         1e9, 1e100, 1e154, 1e155, 1e162, 1e200, 1e300, FMAX, float("inf")]
+XVARS = [0.0, DEN, 1e-310, 1e-300, 1e-200, 1e-100, 1e-10, 0.25, 1.0, 4.0, 1e10, 1e100, 1e200, 1e300, FMAX]
+XSHAPES = ["settle", "halving", "flip", "zeros", "two-scale", "ulp-steps", "near-equal", "equal"]
+XFACTORS = [0.5, 0.999, 1 - 1e-6, 1 + 1e-6, 1.001, 2.0, 1e-3, 1e3]
+XLEN = 16
+
+
+def clip(v):
+    v = float(v)
+    return max(-FMAX, min(FMAX, v))
+
+
+def xshape(rng, name, s):
+    """XLEN finite doubles of magnitude about s (s > 0)"""
+    n = XLEN
+    if name == "settle":            # decreasing, then constant: equal values follow non-zero changes
+        k = int(rng.integers(1, 6))
+        out = [s * 2.0 ** (k - i) for i in range(k)] + [s] * (n - k)
+    elif name == "halving":         # relative change 1/2 for ever, absolute change shrinking
+        a = float(rng.choice([1.0, 8.0, 3.0]))
+        out = [a * s * 2.0 ** (-i) for i in range(n)]
+    elif name == "flip":            # opposite signs, then constant
+        out = [s, -s, s, -s, s / 2, -s / 2, s / 4] + [s / 4] * (n - 7)
+        if rng.random() < 0.5:
+            out = [-v for v in out]
+    elif name == "zeros":
+        out = [float(rng.choice([0.0, 0.0, s, -s, 2 * s])) for _ in range(n)]
+    elif name == "two-scale":       # two magnitudes in one history
+        s2 = MAGS[int(rng.integers(len(MAGS)))]
+        k = int(rng.integers(3, 9))
+        out = [float(rng.choice([s, -s, s2, -s2, 0.0])) for _ in range(k)]
+        out += [out[-1] if rng.random() < 0.5 else float(rng.choice([s, s2]))] * (n - k)
+    elif name == "ulp-steps":       # neighbouring doubles
+        out, x = [], s
+        for _ in range(n):
+            out.append(x)
+            x = float(np.nextafter(x, [np.inf, -np.inf, x][int(rng.integers(3))]))
+    elif name == "near-equal":      # 1e-12 .. 1e-4 away from equal values
+        out = [s * (1.0 + float(rng.choice([-1, 1])) * 10.0 ** float(rng.uniform(-12, -4))) if rng.random() < 0.7 else s for _ in range(n)]
+    else:                           # equal from the start
+        out = [s if rng.random() < 0.5 else -s] * n
+    return [clip(v) for v in out]
+
+
+def exact_deviation(crit, prev, cur, pvar):
+    """float approximation of the exact documented deviation (None when undefined or not representable)"""
+    try:
+        c = abs(Fraction(prev) - Fraction(cur))
+        if crit == "relative":
+            d = c / abs(Fraction(prev))
+        elif crit == "absolute":
+            d = c
+        else:
+            q = c * c / Fraction(pvar)
+            e = (q.numerator.bit_length() - q.denominator.bit_length()) // 2 * 2      # sqrt without overflow: scale by 4^k
+            d = math.sqrt(float(q / Fraction(2) ** e)) * 2.0 ** (e // 2)
+        d = float(d)
+    except (ZeroDivisionError, OverflowError, ValueError):
+        return None
+    return d if (0 < d < math.inf) else None
+
+
+def extreme_spec(rng, i):
+    crit = CRITS[i % 3]
+    evk = "observable" if (crit == "variance" or rng.random() < 0.5) else "metric"
+    shape = XSHAPES[int(rng.integers(len(XSHAPES)))]
+    s = MAGS[int(rng.integers(len(MAGS)))]
+    values = xshape(rng, shape, s)
+    p = 1 + int(rng.integers(3))
+    nv = int(rng.integers(1, 4))
+    if rng.random() < 0.5 and 0 < s * s < math.inf:            # sigma of the magnitude of the values
+        variances = [clip(s * s * float(rng.choice([0.25, 1.0, 4.0, 1e-20, 1e20]))) for _ in range(nv)]
+    else:
+        variances = [XVARS[int(rng.integers(len(XVARS)))] for _ in range(nv)]
+    tol = None
+    if rng.random() < 0.5:                                      # a tolerance next to a deviation of this history
+        t = int(rng.integers(p, 9))
+        d = exact_deviation(crit, values[t - p], values[t], variances[(t - p) % nv])
+        if d is not None:
+            tol = d * XFACTORS[int(rng.integers(len(XFACTORS)))]
+            if not (0 < tol < math.inf):
+                tol = None
+    if tol is None:
+        tol = XTOLS[int(rng.integers(len(XTOLS)))]
+    pe = ps = 1
+    if rng.random() < 0.3:
+        pe, ps = int(rng.integers(1, 4)), int(rng.integers(1, 4))
+    fits = [(1, int(rng.integers(5, 13)))]
+    if rng.random() < 0.2:
+        fits.append((fits[0][1] + 1, fits[0][1] + int(rng.integers(1, 5))) if rng.random() < 0.5 else (1, int(rng.integers(2, 7))))
+    return {"ev": evk, "order": "ev_first" if rng.random() < 0.6 else "st_first", "pe": pe, "ps": ps, "patience": p,
+            "ptype": ["int", "np.int64", "float"][int(rng.integers(3))], "vtype": ["float", "np.float64"][int(rng.integers(2))],
+            "crit": crit, "tol": tol, "values": values, "variances": variances, "fits": fits, "pattern": "extreme:" + shape,
+            "regime": "extreme", "mag": s, "vmag": variances[0], "esform": int(rng.integers(3)), "state": "positive",
+            "tseed": int(rng.integers(1 << 30))}
+
+
+def extreme_fixed():
+    """sessions on which a squared / cross-multiplied / re-associated spelling of a documented test decides differently
+    (under- or overflow of an intermediate, never of the documented quantity); they run first"""
+    k = [0]
+
+    def x(crit, values, tol, variances=(1.0,), p=1, end=8, ev=None, **kw):
+        k[0] += 1
+        values = [float(v) for v in values]
+        values = values + [values[-1]] * (XLEN - len(values))
+        ev = ev or ("observable" if crit == "variance" or k[0] % 2 else "metric")
+        spec = {"ev": ev, "order": "ev_first" if k[0] % 3 else "st_first", "pe": 1, "ps": 1, "patience": p, "crit": crit, "tol": tol,
+                "vtype": "float" if k[0] % 2 else "np.float64", "values": values, "variances": [float(v) for v in variances],
+                "fits": [(1, end)], "pattern": "extreme:fixed", "regime": "extreme", "mag": values[0], "vmag": float(variances[0]),
+                "state": "positive", "tseed": 100 + k[0]}
+        spec.update(kw)
+        return spec
+
+    settle = lambda s: [8 * s, 4 * s, 2 * s, s, s, s]
+    halving = lambda s, n=12: [8 * s * 2.0 ** (-i) for i in range(n)]
+    flip = lambda s: [s, -s, s, -s, s / 2, -s / 2, s / 4, s / 4]
+    out = []
+    # variance: the values stop moving, tolerance tiny but positive -> deviation 0 < tol: stop (tol*tol underflows to 0)
+    for tol in (DEN, FMIN, 1e-300, 1e-200, 1e-163):
+        out.append(x("variance", settle(1.0), tol, [4.0]))
+    out.append(x("variance", settle(1.0), 1e-200, [4.0, 0.0, 0.25, 1.0], p=2, ps=2, end=12))
+    out.append(x("variance", settle(1.0), 1e-200, [1e-300]))                                 # tol*sigma underflows
+    out.append(x("variance", settle(3.0), 1e-100, [1e-300, 1e300]))
+    out.append(x("variance", [2.0 ** -e for e in (590, 595, 600, 605, 610, 615)], 2.0 ** -596))    # d*d underflows: stop at 4
+    out.append(x("variance", halving(1e200), 1.5e50, [1e300]))                                # d*d overflows: stop at 4
+    out.append(x("variance", halving(1e-170), 1e-30, [1e-300], end=10))                       # d*d underflows: never below
+    out.append(x("variance", halving(1e-170), 1e-21, [1e-300], end=10))                       # ... stop at 8
+    out.append(x("variance", settle(1e-160), 50.0, [DEN]))                                    # denormal variance (sigma 2.2e-162)
+    out.append(x("variance", settle(1e150), 1e-160, [1e300]))
+    out.append(x("variance", flip(1e308), float("inf"), [FMAX]))                              # |dM| overflows: exact-vs-IEEE, nothing demanded
+    # relative
+    out.append(x("relative", settle(1e-200), 1e-200))                                         # tol*|M| underflows
+    out.append(x("relative", settle(-1e-200), FMIN))
+    out.append(x("relative", halving(1e-170), 0.6))                                           # squares underflow: stop at 2
+    out.append(x("relative", halving(1e-170), 0.4))                                           # never
+    out.append(x("relative", halving(1e170), 0.6))                                            # squares overflow: stop at 2
+    out.append(x("relative", flip(1e-300), 1.9))                                              # negative tiny denominators: stop at 5
+    out.append(x("relative", flip(-1e300), 1.9))
+    out.append(x("relative", [4 * DEN, 3 * DEN, 2 * DEN, DEN, DEN], 0.2))                     # denormals: 1/4, 1/3, 1/2, 0
+    out.append(x("relative", [1e-300, 1.0, 1e300, 1.0, 1e-300, 1e-300], FMAX, p=1))           # ratios up to 1e300 below max double
+    # absolute
+    for tol in (DEN, 1e-200):
+        out.append(x("absolute", settle(1.0), tol))                                           # tol*tol underflows
+    out.append(x("absolute", halving(1e200), 1.5e200))                                        # squares overflow: stop at 4
+    out.append(x("absolute", halving(1e-200), 1.5e-200))                                      # squares underflow: stop at 4
+    out.append(x("absolute", [1e308, -1e308, 1e308, -1e308, 5e307, -5e307, -5e307], FMAX))    # |dM| = inf is not below max double; 1.5e308 is
+    out.append(x("absolute", flip(1e308), float("inf")))                                      # exact-vs-IEEE, nothing demanded
+    return out
+
 
 def specs(ctx):
     rng = ctx.rng
@@ -362,7 +621,15 @@ def specs(ctx):
         fixed.append({"ev": "observable", "order": "st_first", "pe": 1, "ps": 1, "patience": 1, "crit": "variance", "tol": 2.0, "vtype": vt,
                       "values": [2.0, 2.0, 1.0, 1.0, 1.0, 1.0], "variances": [0.0, 0.0, 1.0], "fits": [(1, 6)],
                       "pattern": "defect-input-zero", "state": "positive", "tseed": 8})
-    return fixed + out
+    # EXTREME regime: fixed sessions first, one random extreme session after every three ordinary ones
+    nx = n // 3
+    xs = [extreme_spec(rng, i) for i in range(nx)]
+    mixed = []
+    for i, sp_ in enumerate(out):
+        mixed.append(sp_)
+        if i % 3 == 2 and i // 3 < nx:
+            mixed.append(xs[i // 3])
+    return extreme_fixed() + fixed + mixed
 
 
 MIN_SESSIONS = 60
@@ -379,8 +646,11 @@ def run(ctx):
     pair_first = [{"ev": "observable", "order": order, "pe": 1, "ps": 1, "patience": 1, "crit": "variance", "tol": 1.0, "vtype": "float",
                    "values": [6.0, 4.5, 3.0, 1.5, 0.0, -1.5, -3.0, -4.5], "variances": [4.0], "fits": [(1, 6)], "pattern": "variance-vs-std_error",
                    "state": "positive", "tseed": 24} for order in ("ev_first", "st_first")]
-    for spec in pair_first + sp:
-        if spec["ev"] == "observable" and spec["pattern"] != "defect-input-zero" and k < (60 if ctx.thorough else 14):
+    # ... and the deprecated class in the EXTREME regime (tiny tolerances, huge / tiny values): the first variance sessions of the fixed list
+    xpairs = [s_ for s_ in sp if s_.get("regime") == "extreme" and s_["crit"] == "variance"][:14 if ctx.thorough else 6:2]
+    kmax = (60 if ctx.thorough else 14) + len(pair_first) * 0 + len(xpairs)
+    for spec in pair_first + xpairs + [s_ for s_ in sp if s_.get("regime") != "extreme"]:
+        if spec["ev"] == "observable" and spec["pattern"] != "defect-input-zero" and k < kmax:
             vn = VNAMES[(k + 1) % len(VNAMES)]         # k = 0: keyword "std_error", k = 1: positional "anything", ...
             k += 1
             a = session(ctx, json.loads(json.dumps(dict(spec, crit="variance"))))
